@@ -62,4 +62,10 @@ theorem C08_fromCan_rejects (c : CanFrame) :
 /-- `to_bxcan_frame` / `from_bxcan_frame` in `src/frame.rs` use the shifts and masks the model uses (both id arms) -/
 theorem C08_src_can_codec : (SrcTie.toCanOk && SrcTie.fromCanOk) = true := by decide
 
+/-! non-vacuity (kernel-evaluated): the repository's own test vector -/
+example :
+    let f : Frame := { notError := true, start := false, multi := true, idLast := false, fid := 0x555, addr := 0x5555, dataLen := 8, data := [0x55, 0x55, 0x55, 0x55, 0x55, 0x55, 0x55, 0x55] }
+    let c : CanFrame := { ext := true, id := 0x14055555, rtr := false, dlc := 8, data := [0x55, 0x55, 0x55, 0x55, 0x55, 0x55, 0x55, 0x55] }
+    toCan f = .ok c ∧ fromCan c = .ok f := by decide
+
 end Ross.Props
